@@ -34,7 +34,7 @@ Print Assumptions C14_handlers_in_force_while_guarded.
 (* ... and the recoveryStack push/pop discipline of the implementation refines it:
    part of the simulation relation is  rcvstack s = H  at every call *)
 Theorem C14_recovery_stack_refines_handlers : forall c,
-  has_state (cT c) = true -> o_memoize (cO c) = false -> G_wf c -> stale_ok c -> t_leftrec (cT c) = false ->
+  state_ok c -> o_memoize (cO c) = false -> G_wf c -> stale_ok c -> t_leftrec (cT c) = false ->
   forall fuel, sim_spec c (parseExprWrap c fuel) (reval c fuel).
 Proof. exact impl_refines_ref. Qed.
 Print Assumptions C14_recovery_stack_refines_handlers.
